@@ -122,7 +122,7 @@ func (prop) Decode(raw []byte) (any, error) {
 	}
 	switch {
 	case isGeomKind(s.Kind):
-		if s.G == nil || s.G.T != s.Kind || s.G.L < 1 || s.G.L > 6 {
+		if s.G == nil || s.G.T != s.Kind || s.G.L < 0 || s.G.L > 6 || (s.G.L == 0 && s.G.NumCoords() > 0) {
 			return nil, fmt.Errorf("bad geometry")
 		}
 	case s.Kind == "Coord":
@@ -228,6 +228,11 @@ func (prop) Generate(r *prng.Rand, phase string) any {
 			}
 			s.G = &mgeom.Geom{T: mgeom.LS, L: l, P: [][][]mgeom.Coord{{cs}}}
 		}
+		if r.Chance(0.02) {
+			// an object without a layout (it can only be empty)
+			l = 0
+			s.G = (&mgeom.Geom{T: s.Kind, L: 0}).Norm()
+		}
 		s.G.S = mgeom.SRID(r)
 		if r.Chance(0.35) {
 			s.Reserve = r.Range(1, 12)
@@ -276,6 +281,9 @@ func (prop) Generate(r *prng.Rand, phase string) any {
 		kinds = []string{"ord", "ord", "reverse", "transform", "setcoords", "setsrid", "swap"}
 	default:
 		kinds = []string{"ord", "ord", "end", "end", "sameend", "push", "push", "reverse", "transform", "setcoords", "setsrid", "swap"}
+	}
+	if isGeomKind(s.Kind) && s.G.L == 0 {
+		kinds = []string{"setsrid", "reverse", "transform", "ord", "sameend"}
 	}
 	for w := 0; w < 2; w++ {
 		n := r.Range(0, []int{1, 3, 6, 12}[r.Intn(4)])
